@@ -50,7 +50,29 @@ func ppuLoop(s *ppuScript, sc *trace.Scenario, p *ppu.PPU, i *interrupts.Interru
 			if len(s.sw[k]) > 2 && s.sw[k][2] >= 0 {
 				low = s.sw[k][2]
 			}
-			if s.sw[k][1] == 1 {
+			if s.sw[k][1] == 3 {
+				// a write to another LCD register (encoded addr<<8 | value): no effect on line and mode timing
+				a, v := s.sw[k][2]>>8, uint8(s.sw[k][2])
+				switch a {
+				case 0x42:
+					p.WriteSCY(v)
+				case 0x43:
+					p.WriteSCX(v)
+				case 0x44:
+					p.WriteLY(v)
+				case 0x47:
+					p.WriteBGP(v)
+				case 0x48:
+					p.WriteOBP0(v)
+				case 0x49:
+					p.WriteOBP1(v)
+				case 0x4a:
+					p.WriteWY(v)
+				case 0x4b:
+					p.WriteWX(v)
+				}
+				sc.Ev = append(sc.Ev, []any{3, int(p.ReadLY()), int(p.ReadSTAT() & 3), a, int(v)})
+			} else if s.sw[k][1] == 1 {
 				p.WriteLCDC(uint8(0x80 | low&0x7f))
 				sc.Ev = append(sc.Ev, []any{1, int(p.ReadLY()), int(p.ReadSTAT() & 3), 0x80 | low&0x7f})
 			} else {
@@ -85,6 +107,8 @@ func ppuMain(c *Ctx) {
 					ps.sw = append(ps.sw, [3]int{t, 1, trace.Int(e[3]) & 0x7f})
 				case 2:
 					ps.sw = append(ps.sw, [3]int{t, 0, trace.Int(e[3]) & 0x7f})
+				case 3:
+					ps.sw = append(ps.sw, [3]int{t, 3, trace.Int(e[3])<<8 | trace.Int(e[4])})
 				}
 			}
 			w.Put(ppuRun(ps))
@@ -153,6 +177,45 @@ func ppuMain(c *Ctx) {
 				emit("switch", &ppuScript{stat: st, lyc: []int{0, line, 144}[rng.Intn(3)], cycles: offAt + gap + 700,
 					sw: [][3]int{{onAt, 1, -1}, {offAt, 0, -1}, {offAt + gap, 1, -1}}})
 			}
+		}
+	}
+	if c.Want("regs") {
+		// the LCD left on while the program writes the other LCD registers (LY, scroll, palettes, window position) and
+		// rewrites LCDC with bit 7 still set: neither moves the line / mode schedule. Redundant switch-on writes fall on
+		// seven offsets of every line, the last cycles of the line among them.
+		rng := c.Rand(1304)
+		count := 3
+		if thorough {
+			count = 40
+		}
+		regs := []int{0x44, 0x43, 0x42, 0x44, 0x43, 0x47, 0x48, 0x49, 0x4a, 0x4b}
+		for i := 0; i < count; i++ {
+			on := 3 + rng.Intn(40)
+			sw := [][3]int{{on, 1, -1}}
+			total := 2*17556 + 400
+			t := on + 1
+			for t < total {
+				sw = append(sw, [3]int{t, 3, regs[rng.Intn(len(regs))]<<8 | rng.Intn(256)})
+				t += 1 + rng.Intn(90)
+			}
+			emit("regs", &ppuScript{stat: []int{0, 8, 16, 32, 64}[rng.Intn(5)], lyc: rng.Intn(160), cycles: total, sw: sw})
+			var sw2 [][3]int
+			sw2 = append(sw2, [3]int{on, 1, -1})
+			for line := 0; line < 2*154; line++ {
+				for _, off := range []int{(line * 7) % 109, 109, 110, 111, 112, 113} {
+					if (line+off+i)%3 != 0 && off < 109 {
+						continue
+					}
+					sw2 = append(sw2, [3]int{on + line*114 + off, 1, -1})
+				}
+			}
+			// events must be in time order
+			for a := 1; a < len(sw2); a++ {
+				for b := a; b > 0 && sw2[b][0] < sw2[b-1][0]; b-- {
+					sw2[b], sw2[b-1] = sw2[b-1], sw2[b]
+				}
+			}
+			emit("regs", &ppuScript{stat: []int{16, 8, 64, 32, 0}[i%5], lyc: []int{144, 0, 143}[i%3], cycles: total, sw: sw2})
 		}
 	}
 	if c.Want("rand") {
